@@ -226,7 +226,7 @@ def part_regression_old_resubmit(chk, tmp):
     chk.count(("regression-old-resubmit",))
 
 
-def run(chk):
+def _component_run(chk):
     proofs_ok = core.standard_proof_phase(chk, "C09", gen_needed=("_none_",))
     logging.disable(logging.CRITICAL)
     tmp = tempfile.mkdtemp(prefix="verif_c09_")
@@ -257,7 +257,7 @@ def run(chk):
                         "job names unique in the configuration (JobConfiguration.add_job enforces it)"]
 
 
-def replay(path):
+def _component_replay(path):
     obj = json.load(open(path))
     print(json.dumps({k: v for k, v in obj.items() if k not in ("impl_snapshots",)}, indent=1)[:3000])
     if "spec" in obj and "ops" in obj:
@@ -274,3 +274,24 @@ def replay(path):
         finally:
             shutil.rmtree(tmp, ignore_errors=True)
     return 0
+
+
+# ------------------------------------------------------------------------------------------------
+# system level (added by the coordinator): the real code in the virtual cluster, impl traces accepted
+# by System.step, Coq monitors and Python oracles (harness/syscheck.py)
+def run(chk):
+    _component_run(chk)
+    from harness import syscheck
+    syscheck.system_phase(chk, "C09", {'plain': 6, 'cancel': 2, 'sbatchfail': 1, 'timeout': 1}, n_quick=120, n_thorough=2500, also=())
+
+
+def replay(path):
+    import json as _json
+    try:
+        obj = _json.load(open(path))
+    except Exception:  # noqa
+        obj = {}
+    if isinstance(obj, dict) and "scenario" in obj and "schedule" in obj and "plan" in obj:
+        from harness import syscheck
+        return syscheck.replay_case(path)
+    return _component_replay(path)
